@@ -408,6 +408,15 @@ def c19(ctx):
 @check("C16")
 def c16(ctx):
     model_check(ctx, "MCRecode.tla", "MCRecode.cfg")
+    # point formulas on every pair of points of a small curve of edwards25519's shape; both scalar multiplication algorithms end to end
+    sfx = "_t" if ctx.thorough else ""
+    for mode in ("formulas", "base", "double"):
+        model_check(ctx, "MCGroupLaw.tla", "MCGroupLaw_%s%s.cfg" % (mode, sfx), timeout=7200)
+    for neg, what in (("row0", "a table whose row 0 stores 2dxy"), ("dbl3", "three doublings between the odd and the even digits"),
+                      ("ec2d", "add_p1p1 with d in the place of 2d"), ("stale", "an addition that reads the T of a partial point")):
+        ok, _ = model_check(ctx, "MCGroupLaw.tla", "MCGroupLaw_neg_%s.cfg" % neg, expect_ok=False)
+        if ok:
+            raise Infra("model control failed: MCGroupLaw accepts " + what)
     num_family(ctx, NUM_CONFIGS_THOROUGH if ctx.thorough else ["default", "noasm", "force32bit"])
     curve_family(ctx)   # audit-iso events: the projection [k]B + [t]T8 is re-derived bit by bit in TLA+
     finish(ctx, "constant-time table selector on its complete domain (32 positions x 17 digits) on the assembly, reference and 32-bit backends: niels entry = (y-x, y+x, 2dxy) of [b 256^pos]B (row 0: 2xy) checked by TLC; "
